@@ -244,10 +244,124 @@ def run_ctor_chain(w) -> None:
         loaded.unload()
 
 
+RECREATED_SOURCE = '''
+import dataclasses
+import icontract
+
+
+def mk(kind, ident, value=True):
+    def cond(**kwargs):
+        getattr(HUB, kind)(ident, kwargs)
+        return value
+    return cond
+
+
+def pre_base(x):
+    return HUB.cond("pre_base", {"x": x})
+
+
+def pre_own(x):
+    return HUB.cond("pre_own", {"x": x})
+
+
+def snap_base(x):
+    return HUB.capture("snap_base", {"x": x})
+
+
+def post_base(result, OLD):
+    return HUB.cond("post_base", {"result": result})
+
+
+def post_own(result):
+    return HUB.cond("post_own", {"result": result})
+
+
+def post_shared(result):
+    return HUB.cond("post_shared", {"result": result})
+
+
+shared = icontract.ensure(post_shared)
+
+
+@icontract.invariant(lambda self: HUB.inv("inv_base", self))
+class Base(icontract.DBC):
+    @icontract.require(pre_base)
+    @icontract.snapshot(snap_base, name="s")
+    @icontract.ensure(post_base)
+    def f(self, x):
+        return HUB.body("Base.f", {"x": x})
+
+    @shared
+    def g(self, x):
+        return HUB.body("Base.g", {"x": x})
+
+
+@icontract.invariant(lambda self: HUB.inv("inv_own", self))
+class Derived(Base):
+    @icontract.require(pre_own)
+    @icontract.ensure(post_own)
+    def f(self, x):
+        return HUB.body("Derived.f", {"x": x})
+
+    @shared
+    def g(self, x):
+        return HUB.body("Derived.g", {"x": x})
+
+
+# the class created anew from its own namespace (what dataclasses.dataclass(slots=True), attrs and class decorators which
+# rebuild the class do): the functions in the namespace already carry the merged contracts
+Rebuilt = type(Derived)(Derived.__name__, Derived.__bases__, dict(Derived.__dict__))
+
+
+@dataclasses.dataclass(slots=True)
+class Slotted(Base):
+    v: int = 0
+
+    @icontract.ensure(post_own)
+    def f(self, x):
+        return HUB.body("Slotted.f", {"x": x})
+'''
+
+
+def run_recreated(w) -> None:
+    """A contract which reaches a function twice although there is a single inheritance path (the class is created anew from its
+    namespace; one decorator object is applied to the base method and to the override): still evaluated once per check, inherited
+    postconditions before the own ones."""
+    loaded = prog.load_source(RECREATED_SOURCE, w.scratch())
+    mod, hub = loaded.module, loaded.hub
+    try:
+        want_f = [("inv", "inv_base"), ("inv", "inv_own"), ("cond", "pre_base"), ("snap", "snap_base"), ("body", "Derived.f"), ("cond", "post_base"),
+                  ("cond", "post_own"), ("inv", "inv_base"), ("inv", "inv_own")]
+        want_g = [("inv", "inv_base"), ("inv", "inv_own"), ("body", "Derived.g"), ("cond", "post_shared"), ("inv", "inv_base"), ("inv", "inv_own")]
+        want_slotted = [("inv", "inv_base"), ("cond", "pre_base"), ("snap", "snap_base"), ("body", "Slotted.f"), ("cond", "post_base"), ("cond", "post_own"),
+                        ("inv", "inv_base")]
+        # (the order of the classes matters: Derived is called again after Rebuilt was created from its namespace)
+        for cname, member, want in (("Derived", "f", want_f), ("Rebuilt", "f", want_f), ("Derived", "g", want_g), ("Rebuilt", "g", want_g),
+                                    ("Slotted", "f", want_slotted)):
+            obj = getattr(mod, cname)()
+            hub.reset()
+            try:
+                getattr(obj, member)(1)
+                outcome = "returned"
+            except BaseException as err:  # pylint: disable=broad-except
+                outcome = "raised {}: {}".format(type(err).__name__, str(err)[:120])
+            evs = [(e.kind, e.id) for e in hub.events]
+            w.count("events", len(evs))
+            w.count("recreated_class_calls")
+            w.case(("recreated", cname, member))
+            if outcome != "returned" or evs != want:
+                w.violation("C16/contract-reaching-a-function-twice-evaluated-repeatedly", "{}().{}(1) {}: events {} but every contract is evaluated once "
+                            "per check in the documented order {}".format(cname, member, outcome, evs, want), {"recreated": cname})
+    finally:
+        loaded.unload()
+
+
 def run(w) -> None:
     w.exhaustive = False
     if w.shard == 0:
         run_ctor_chain(w)
+    if w.shard == 1 % w.nshards:
+        run_recreated(w)
     for shape, kind, is_async, spec in hierarchies(w):
         w.count("programs")
         run_spec(w, spec, (str(shape), kind, is_async))
@@ -259,6 +373,9 @@ def run(w) -> None:
 def replay(case, w) -> None:
     if "ctor_chain" in case:
         run_ctor_chain(w)
+        return
+    if "recreated" in case:
+        run_recreated(w)
         return
     spec = case["prog"]
     model = Model(spec)
